@@ -3,7 +3,8 @@
 From FMP Require Import Base.Bytes Base.Lts Model.Events Model.Skeleton Model.Props Model.Dispatch Model.Receiver
      Model.Writer Model.Generated Model.Msgpack Model.Frame
      Proofs.DispatchProofs Proofs.ReceiverProofs Proofs.WriterProofs Proofs.MsgpackProofs Proofs.FrameProofs
-     Proofs.SkeletonProofs Proofs.ReceiverProgress Proofs.WriterProgress.
+     Proofs.SkeletonProofs Proofs.ReceiverProgress Proofs.WriterProgress
+     Model.Tags Model.TagsCfg Proofs.TagsProofs Proofs.TagsCfgProofs.
 Open Scope Z_scope.
 
 (* no caller ever observes another call's reply, whatever the order and delay in which replies arrive: every result
@@ -108,6 +109,20 @@ Theorem C01_writer_alive_until_closed : forall sk ss ls st,
 Proof. exact writer_alive_until_closed. Qed.
 
 
+(* "exactly the RPC tags the caller supplied", on the caller's side: calls made from one context that already carries
+   tags (a session), each adding its own, keep the session's tags extended by their own - and go on showing exactly
+   that whatever sibling is derived, whatever is added to the session, read out, or written into the maps that were
+   passed in afterwards (Model/Tags.v; both copies are facts of the regenerated order census) *)
+Theorem C01_sibling_calls_keep_their_own_tags : forall ops c m addm later,
+    let h := trun good th0 ops in
+    (exists x, zfind c (ctxs h) = Some x) -> zfind m (maps h) = Some addm ->
+    tags_of (trun good th0 (ops ++ TAdd c m :: later)) (next_ctx h) =
+      Some (tm_merge (match tags_of h c with Some t => t | None => [] end) addm)
+    /\ tags_of (trun good th0 (ops ++ TAdd c m :: later)) c = tags_of h c.
+Proof. exact sibling_tags_for_ever. Qed.
+Theorem C01_tag_copies_generated_ok : tcfg_now = good.
+Proof. exact tcfg_generated_ok. Qed.
+
 Print Assumptions C01_no_crosstalk.
 Print Assumptions C01_seqnos_distinct.
 Print Assumptions C01_registered_while_outstanding.
@@ -123,3 +138,5 @@ Print Assumptions C01_ok_means_written_once.
 Print Assumptions C01_unhanded_writes_nothing.
 Print Assumptions C01_reply_can_complete.
 Print Assumptions C01_writer_alive_until_closed.
+Print Assumptions C01_sibling_calls_keep_their_own_tags.
+Print Assumptions C01_tag_copies_generated_ok.
